@@ -120,7 +120,7 @@ func (ex *Exec) builtin(st *State, name string, args []Val, in *ssa.Call) []Outc
 		if !ok || m.Obj == nil {
 			return []Outcome{{St: st}}
 		}
-		mc := st.Mem[m.Obj].(MapContent)
+		mc := ex.mapContentOf(st, m)
 		k := ex.scalar(st, args[1])
 		mc = MapContent{Val: smt.Sto(mc.Val, k, zeroTerm(mustSort(m.V))), Dom: smt.Sto(mc.Dom, k, smt.False)}
 		st.Mem[m.Obj] = mc
@@ -521,6 +521,64 @@ func (ex *Exec) knownRefs(st *State, args []Val) []string {
 	return dedup(out)
 }
 
+// readArgs: the heap arrays of the "reads" clause of a pure function, as extra arguments
+// of its symbol: two applications are only equal when those fields hold the same contents.
+func (ex *Exec) readArgs(st *State, fn *ssa.Function, fc *contract.Func) (terms, sorts []string) {
+	if len(fc.Reads) == 0 {
+		return nil, nil
+	}
+	sc := &Scope{St: st, Vars: map[string]Val{}, Pkg: fn.Pkg}
+	for _, loc := range fc.Reads {
+		root, names, t, ok := ex.typeLoc(sc, loc)
+		if !ok {
+			panic(fmt.Errorf("contract: reads clause %q of %s is not of the form Type.Field", loc, fc.Name))
+		}
+		var ls []leaf
+		leaves(t, nil, "", &ls)
+		for _, l := range ls {
+			n := names
+			if l.Names != "" {
+				n += "." + l.Names
+			}
+			for _, suf := range leafSuffixes(l.Type) {
+				k := ex.heapKey(root, n, suf)
+				terms = append(terms, ex.heapArr(st, k, ex.leafSort(l.Type, suf)))
+				sorts = append(sorts, "(Array Ref "+ex.heapSort[k]+")")
+			}
+		}
+	}
+	return terms, sorts
+}
+
+// lenAxiom: the length symbol of a slice-valued pure function is non-negative (an axiom over
+// all arguments, so that it also holds under the quantifiers of a contract expression).
+func (ex *Exec) lenAxiom(fl string, sorts []string) {
+	key := "lenaxiom:" + fl
+	ex.mu.Lock()
+	done := ex.axiomDone[key]
+	if ex.axiomDone == nil {
+		ex.axiomDone = map[string]bool{}
+	}
+	ex.axiomDone[key] = true
+	ex.mu.Unlock()
+	if done {
+		return
+	}
+	if len(sorts) == 0 {
+		ex.Ctx.AddAxiom(smt.Ge(fl, "0"))
+		return
+	}
+	var bs [][2]string
+	var as []string
+	for i, srt := range sorts {
+		n := fmt.Sprintf("a%d", i)
+		bs = append(bs, [2]string{n, srt})
+		as = append(as, n)
+	}
+	app := smt.App(fl, as...)
+	ex.Ctx.AddAxiom(smt.Forall(bs, smt.Ge(app, "0"), app))
+}
+
 // PureAppN applies a pure function with one result, or with (T, error): one symbol per
 // result.
 func (ex *Exec) PureAppN(st *State, fn *ssa.Function, args []Val) []Val {
@@ -542,6 +600,8 @@ func (ex *Exec) PureAppN(st *State, fn *ssa.Function, args []Val) []Val {
 		terms = append(terms, flatten(a)...)
 		sorts = append(sorts, flatSorts(a)...)
 	}
+	rt2, rs2 := ex.readArgs(st, fn, fc)
+	terms, sorts = append(terms, rt2...), append(sorts, rs2...)
 	base := "F_" + strings.ReplaceAll(rel, "/", "_") + "_" + name
 	var rets []Val
 	for i := 0; i < res.Len(); i++ {
@@ -555,12 +615,15 @@ func (ex *Exec) PureAppN(st *State, fn *ssa.Function, args []Val) []Val {
 			fa := ex.Ctx.Declare(fmt.Sprintf("%s_%d_arr", base, i), sorts, ArrSort(sl.Elem()))
 			fl := ex.Ctx.Declare(fmt.Sprintf("%s_%d_len", base, i), sorts, "Int")
 			ln := smt.App(fl, terms...)
-			st.Assume(smt.Ge(ln, "0"))
+			ex.lenAxiom(fl, sorts)
 			rets = append(rets, Slice{Arr: smt.App(fa, terms...), Len: ln, Elem: sl.Elem(), B: ex.newBacking()})
 			continue
 		}
 		f := ex.Ctx.Declare(fmt.Sprintf("%s_%d", base, i), sorts, mustSort(rt))
 		rets = append(rets, wrapTerm(rt, smt.App(f, terms...)))
+	}
+	if strings.Contains(strings.Join(terms, " "), "?") {
+		return rets // applied under a quantifier of a contract expression: no ground facts
 	}
 	sc := ex.scopeFor(fn, st, nil, args, rets)
 	for _, e := range fc.Default().Ensures {
@@ -592,7 +655,7 @@ func (ex *Exec) PureApp(st *State, fn *ssa.Function, args []Val) Val {
 		fa := ex.Ctx.Declare(base+"_arr", sorts, ArrSort(sl.Elem()))
 		fl := ex.Ctx.Declare(base+"_len", sorts, "Int")
 		ln := smt.App(fl, terms...)
-		st.Assume(smt.Ge(ln, "0"))
+		ex.lenAxiom(fl, sorts)
 		res := Slice{Arr: smt.App(fa, terms...), Len: ln, Elem: sl.Elem(), B: ex.newBacking()}
 		sc := ex.scopeFor(fn, st, nil, args, []Val{res})
 		for _, e := range fc.Default().Ensures {
@@ -843,6 +906,22 @@ func (ex *Exec) loopScope(st *State, b *ssa.BasicBlock, ord int) *Scope {
 			if phi.Comment == "rangeindex" {
 				if v, ok := fr.Env[phi]; ok {
 					sc.Iter[o] = smt.Add(v.(Int).T, "1")
+				}
+				// ranged(N): the slice the loop ranges over (it has no name when it is the
+				// result of a call): the operand of the len() the hidden index is compared with
+				if iff, ok := h.Instrs[len(h.Instrs)-1].(*ssa.If); ok {
+					if cmp, ok := iff.Cond.(*ssa.BinOp); ok {
+						if lc, ok := cmp.Y.(*ssa.Call); ok && len(lc.Call.Args) == 1 {
+							if bi, ok := lc.Call.Value.(*ssa.Builtin); ok && bi.Name() == "len" {
+								if rv, ok := fr.Env[lc.Call.Args[0]]; ok {
+									if sc.Ranged == nil {
+										sc.Ranged = map[int]Val{}
+									}
+									sc.Ranged[o] = rv
+								}
+							}
+						}
+					}
 				}
 			} else if phi == counterPhi(h) {
 				// for i := 0; ...; i++ : the number of completed iterations is i
